@@ -2,6 +2,8 @@ package props
 
 import (
 	"fmt"
+	"os"
+	"strconv"
 	"strings"
 	"testing"
 
@@ -236,6 +238,22 @@ func TestC16(t *testing.T) {
 	defer r.Finish()
 	r.Assume("well-formed = board, bitboards, king squares and totals mutually consistent, exactly one king per side, FEN output re-parses to an identical position, and the engine's own generators/predicates run on it without panicking")
 
+	// a crasher found by the native fuzzer (thorough tier) is turned into a replayable violation here
+	if ff := os.Getenv("VERIF_FUZZFILE"); ff != "" {
+		b, err := os.ReadFile(ff)
+		if err != nil {
+			t.Fatalf("INFRA: %v", err)
+		}
+		lines := strings.Split(strings.TrimSpace(string(b)), "\n")
+		in := ""
+		if len(lines) >= 2 && strings.HasPrefix(lines[1], "string(") {
+			if u, err := strconv.Unquote(strings.TrimSuffix(strings.TrimPrefix(lines[1], "string("), ")")); err == nil {
+				in = u
+			}
+		}
+		hx.Enum(r, "fen-fuzz-crasher", false, func(yield func(fenCase) bool) { yield(fenCase{Input: in}) }, propC16Fen)
+		return
+	}
 	hx.Sub(r, "fen-mutated", r.N(30000, 300000), func(t *rapid.T) fenCase {
 		p := hx.GenPosition(t)
 		fen := p.FEN()
